@@ -2,245 +2,195 @@ import InfluxQL.Lemmas.Regex
 namespace InfluxQL.Rx
 open InfluxQL Gen
 
-/-! ## The induction over the tree -/
+/-! ## Evaluation of the rewritten tests -/
 
-/-- All runes of all strings are encodable (valid scalars other than U+FFFD). -/
-def EncStrs (L : List Str) : Prop := ∀ l, l ∈ L → ∀ c, c ∈ l → isEncodableRune c.toNat = true
+/-- `before ≈ after`: equal, or `nil` became `false` (a regex test on a non-string gives nil,
+the equality test that replaces it gives false). -/
+def Rel (v w : Val) : Prop := v = w ∨ (v = .nil ∧ w = .bool false)
 
-/-- `L` is exactly the language of the context-aware matcher `m`, in every context. -/
-def Lang (m : Str → Str → Str → Bool) (L : List Str) : Prop :=
-  ∀ pre s post, m pre s post = true ↔ s ∈ L
+theorem Rel.refl (v : Val) : Rel v v := Or.inl rfl
 
-structure Spec (m : Str → Str → Str → Bool) (L : List Str) : Prop where
-  lang : Lang m L
-  len : L.length ≤ maxLiterals
-  enc : EncStrs L
+theorem Rel.truthy {v w : Val} (h : Rel v w) : truthy v = truthy w := by
+  rcases h with rfl | ⟨rfl, rfl⟩ <;> rfl
 
-theorem matchB_mk (op : Op) (flags : Nat) (rune : List Nat) (sub : List Regex) (pre mid post : Str) :
-    matchB (.mk op flags rune sub) pre mid post =
-      match op with
-      | .noMatch => false
-      | .emptyMatch => mid.isEmpty
-      | .literal => litMatch (hasFold flags) rune mid
-      | .charClass => match mid with | [c] => classMem c.toNat rune | _ => false
-      | .anyCharNotNL => match mid with | [c] => c != '\n' | _ => false
-      | .anyChar => match mid with | [_] => true | _ => false
-      | .beginLine => mid.isEmpty && (pre.isEmpty || pre.getLast? == some '\n')
-      | .endLine => mid.isEmpty && (post.isEmpty || post.head? == some '\n')
-      | .beginText => mid.isEmpty && pre.isEmpty
-      | .endText => mid.isEmpty && post.isEmpty
-      | .wordBoundary => mid.isEmpty && (lastIsWord pre != headIsWord post)
-      | .noWordBoundary => mid.isEmpty && (lastIsWord pre == headIsWord post)
-      | .capture => matchFirstB sub pre mid post
-      | .star => starB (matchFirstB sub) mid.length pre mid post
-      | .plus => (splits mid).any fun p =>
-          matchFirstB sub pre p.1 (p.2 ++ post) && starB (matchFirstB sub) p.2.length (pre ++ p.1) p.2 post
-      | .quest => mid.isEmpty || matchFirstB sub pre mid post
-      | .repeat_ => false
-      | .concat => matchConcatB sub pre mid post
-      | .alternate => matchAltB sub pre mid post := by
-  unfold matchB; rfl
+/-- `AND` / `OR` respect `≈` in both operands. -/
+theorem evalLogic_rel (isOr : Bool) {a a' b b' : Val} (ha : Rel a a') (hb : Rel b b') :
+    Rel (evalLogic isOr a b) (evalLogic isOr a' b') := by
+  rcases ha with rfl | ⟨rfl, rfl⟩ <;> rcases hb with rfl | ⟨rfl, rfl⟩
+  · exact Rel.refl _
+  · cases a <;> cases isOr <;> simp [evalLogic, Rel]
+  · cases b <;> cases isOr <;> simp [evalLogic, Rel]
+  · cases isOr <;> simp [evalLogic, Rel]
 
-theorem matchConcatB_cons (r : Regex) (rest : List Regex) (pre mid post : Str) :
-    matchConcatB (r :: rest) pre mid post =
-      (splits mid).any fun p => matchB r pre p.1 (p.2 ++ post) && matchConcatB rest (pre ++ p.1) p.2 post := by
-  rw [matchConcatB]
+/-- The boolean an equality test against a literal yields. -/
+def strCmpB (neg : Bool) (v : Val) (lit : Str) : Bool :=
+  match v with
+  | .str x => if neg then x ≠ ofStr lit else x = ofStr lit
+  | _ => false
 
-theorem matchConcatB_nil (pre mid post : Str) : matchConcatB [] pre mid post = mid.isEmpty := by
-  rw [matchConcatB]
+theorem evalStrCmp_eq (neg : Bool) (v : Val) (lit : Str) : evalStrCmp neg v lit = .bool (strCmpB neg v lit) := by
+  cases v <;> simp [evalStrCmp, strCmpB]
 
-theorem matchAltB_cons (r : Regex) (rest : List Regex) (pre mid post : Str) :
-    matchAltB (r :: rest) pre mid post = (matchB r pre mid post || matchAltB rest pre mid post) := by
-  rw [matchAltB]
+section
+variable (matchStr : Str → GoStr → Bool) (atom : Expr → Val)
 
-theorem matchAltB_nil (pre mid post : Str) : matchAltB [] pre mid post = false := by
-  rw [matchAltB]
+theorem eval_and (l r : Expr) :
+    eval matchStr atom (.binary .AND l r) = evalLogic false (eval matchStr atom l) (eval matchStr atom r) := by
+  simp [eval]
 
-theorem matchFirstB_cons (r : Regex) (rest : List Regex) : matchFirstB (r :: rest) = matchB r := by
-  rw [matchFirstB]
+theorem eval_or (l r : Expr) :
+    eval matchStr atom (.binary .OR l r) = evalLogic true (eval matchStr atom l) (eval matchStr atom r) := by
+  simp [eval]
 
-/-- `matchConcatB (r :: rest)` as a statement about splits. -/
-theorem matchConcatB_cons_iff {r : Regex} {rest : List Regex} {pre mid post : Str} :
-    matchConcatB (r :: rest) pre mid post = true ↔
-      ∃ a b, mid = a ++ b ∧ matchB r pre a (b ++ post) = true ∧ matchConcatB rest (pre ++ a) b post = true := by
-  rw [matchConcatB_cons, splits_any]
-  simp only [Bool.and_eq_true]
+theorem eval_paren (e : Expr) : eval matchStr atom (.paren e) = eval matchStr atom e := by
+  simp [eval]
 
-theorem literal_spec {flags : Nat} {rune : List Nat} (sub : List Regex) (hf : hasFold flags = false)
-    (he : rune.all isEncodableRune = true) : Spec (matchB (.mk .literal flags rune sub)) [runesToStr rune] := by
-  refine ⟨?_, by simp [maxLiterals], ?_⟩
-  · intro pre s post
-    rw [matchB_mk]
-    simp only [hf, litMatch_false, map_toNat_eq_iff he, List.mem_singleton]
-  · intro l hl c hc
-    simp only [List.mem_singleton] at hl
-    subst hl
-    simp only [runesToStr, List.mem_map] at hc
-    obtain ⟨r, hr, rfl⟩ := hc
-    have := List.all_eq_true.mp he r hr
-    rw [goChar_toNat this]; exact this
+theorem eval_eq_lit (l : Expr) (lit : Str) :
+    eval matchStr atom (.binary .EQ l (.string lit)) = .bool (strCmpB false (eval matchStr atom l) lit) := by
+  simp [eval, evalStrCmp_eq]
 
-theorem class_spec {flags : Nat} {rune : List Nat} (sub : List Regex) {L : List Str}
-    (hs : classSize rune ≤ maxLiterals) (h : classStrs rune = some L) :
-    Spec (matchB (.mk .charClass flags rune sub)) L := by
-  obtain ⟨h1, h2, h3, h4⟩ := classStrs_spec h
-  refine ⟨?_, by omega, h4⟩
-  intro pre s post
-  rw [matchB_mk]
-  match s with
-  | [c] => simp only [h3]
-  | [] =>
-    simp only [Bool.false_eq_true, false_iff]
-    intro hm; obtain ⟨c, hc⟩ := h2 _ hm; simp at hc
-  | a :: b :: t =>
-    simp only [Bool.false_eq_true, false_iff]
-    intro hm; obtain ⟨c, hc⟩ := h2 _ hm; simp at hc
+theorem eval_neq_lit (l : Expr) (lit : Str) :
+    eval matchStr atom (.binary .NEQ l (.string lit)) = .bool (strCmpB true (eval matchStr atom l) lit) := by
+  simp [eval, evalStrCmp_eq]
 
-mutual
-  theorem regex_spec : ∀ (re : Regex) (L : List Str), matchRegex re = some L → Spec (matchB re) L
-    | .mk op flags rune sub, L, h => by
-      cases op with
-      | literal =>
-        rw [matchRegex] at h
-        split at h
-        · simp at h
-        · rename_i hf
-          simp only [Bool.not_eq_true] at hf
-          split at h
-          · rename_i he
-            simp only [Option.some.injEq] at h; subst h
-            exact literal_spec sub hf he
-          · simp at h
-      | charClass =>
-        rw [matchRegex] at h
-        split at h
-        · simp at h
-        · split at h
-          · simp at h
-          · rename_i hs
-            simp only [Bool.or_eq_true, decide_eq_true_eq, beq_iff_eq, not_or] at hs
-            exact class_spec sub (by omega) h
-      | capture =>
-        rw [matchRegex] at h
-        split at h
-        · simp at h
-        · have := first_spec sub L h
-          exact ⟨fun pre s post => by rw [matchB_mk]; exact this.lang pre s post, this.len, this.enc⟩
-      | concat =>
-        rw [matchRegex] at h
-        split at h
-        · simp at h
-        · have := concat_spec sub L h
-          exact ⟨fun pre s post => by rw [matchB_mk]; exact this.lang pre s post, this.len, this.enc⟩
-      | alternate =>
-        rw [matchRegex] at h
-        split at h
-        · simp at h
-        · cases ha : matchAlt sub with
-          | none => rw [ha] at h; simp at h
-          | some names =>
-            rw [ha] at h
-            simp only at h
-            split at h
-            · simp at h
-            · rename_i hl
-              simp only [Option.some.injEq] at h; subst h
-              have := alt_spec sub names ha
-              exact ⟨fun pre s post => by rw [matchB_mk]; exact this.1 pre s post, by omega, this.2⟩
-      | _ => simp [matchRegex] at h
-  theorem first_spec : ∀ (sub : List Regex) (L : List Str), matchFirst sub = some L → Spec (matchFirstB sub) L
-    | [], L, h => by simp [matchFirst] at h
-    | r :: rest, L, h => by
-      rw [matchFirst] at h
-      rw [matchFirstB_cons]
-      exact regex_spec r L h
-  theorem concat_spec : ∀ (sub : List Regex) (L : List Str), matchConcat sub = some L → Spec (matchConcatB sub) L
-    | [], L, h => by simp [matchConcat] at h
-    | r :: rest, L, h => by
-      rw [matchConcat] at h
-      cases hr : matchRegex r with
-      | none => rw [hr] at h; simp at h
-      | some names =>
-        rw [hr] at h
-        simp only at h
-        have sr := regex_spec r names hr
-        have sl := loop_spec rest names L h sr.len sr.enc
-        refine ⟨?_, sl.2.1, sl.2.2⟩
-        intro pre s post
-        rw [matchConcatB_cons_iff, ← sl.1 pre s post]
-        constructor
-        · rintro ⟨a, b, e, h1, h2⟩; exact ⟨a, b, e, (sr.lang _ _ _).mp h1, h2⟩
-        · rintro ⟨a, b, e, h1, h2⟩; exact ⟨a, b, e, (sr.lang _ _ _).mpr h1, h2⟩
-  theorem loop_spec : ∀ (rest : List Regex) (names L : List Str), concatLoop names rest = some L →
-      names.length ≤ maxLiterals → EncStrs names →
-      (∀ pre s post, (∃ a b, s = a ++ b ∧ a ∈ names ∧ matchConcatB rest (pre ++ a) b post = true) ↔ s ∈ L) ∧
-        L.length ≤ maxLiterals ∧ EncStrs L
-    | [], names, L, h, hn, he => by
-      rw [concatLoop] at h
-      simp only [Option.some.injEq] at h; subst h
-      refine ⟨?_, hn, he⟩
-      intro pre s post
-      simp only [matchConcatB_nil, List.isEmpty_iff]
-      constructor
-      · rintro ⟨a, b, rfl, ha, rfl⟩; simpa using ha
-      · intro hs; exact ⟨s, [], by simp, hs, rfl⟩
-    | r :: rest, names, L, h, hn, he => by
-      rw [concatLoop] at h
-      cases hr : matchRegex r with
-      | none => rw [hr] at h; simp at h
+theorem eval_eqregex (l : Expr) (src : Str) :
+    eval matchStr atom (.binary .EQREGEX l (.regex src)) = evalRegexCmp matchStr false (eval matchStr atom l) src := by
+  simp [eval]
+
+theorem eval_neqregex (l : Expr) (src : Str) :
+    eval matchStr atom (.binary .NEQREGEX l (.regex src)) = evalRegexCmp matchStr true (eval matchStr atom l) src := by
+  simp [eval]
+
+theorem eval_stripParen (e : Expr) : eval matchStr atom (stripParen e) = eval matchStr atom e := by
+  cases e <;> simp [stripParen, eval_paren]
+
+theorem eval_chain_or (lhs : Expr) (vs : List Str) (acc : Expr) (b : Bool)
+    (h : eval matchStr atom acc = .bool b) :
+    eval matchStr atom (chain .EQ .OR lhs acc vs) =
+      .bool (b || vs.any (strCmpB false (eval matchStr atom lhs))) := by
+  induction vs generalizing acc b with
+  | nil => simp [chain, h]
+  | cons v vs ih =>
+    rw [chain, ih _ (b || strCmpB false (eval matchStr atom lhs) v)]
+    · simp [Bool.or_assoc]
+    · rw [eval_or, h, eval_eq_lit]; simp [evalLogic]
+
+theorem eval_chain_and (lhs : Expr) (vs : List Str) (acc : Expr) (b : Bool)
+    (h : eval matchStr atom acc = .bool b) :
+    eval matchStr atom (chain .NEQ .AND lhs acc vs) =
+      .bool (b && vs.all (strCmpB true (eval matchStr atom lhs))) := by
+  induction vs generalizing acc b with
+  | nil => simp [chain, h]
+  | cons v vs ih =>
+    rw [chain, ih _ (b && strCmpB true (eval matchStr atom lhs) v)]
+    · simp [Bool.and_assoc]
+    · rw [eval_and, h, eval_neq_lit]; simp [evalLogic]
+
+/-- The OR chain is true iff the value equals one of the substituted literals. -/
+theorem eval_tests_or (lhs : Expr) (vals : List Str) :
+    eval matchStr atom (literalTests .EQ .OR lhs vals) =
+      .bool ((rewriteLits vals).any (strCmpB false (eval matchStr atom lhs))) := by
+  match vals with
+  | [] => simp [literalTests, rewriteLits, eval_eq_lit]
+  | [v] => simp [literalTests, rewriteLits, eval_eq_lit]
+  | v :: w :: vs =>
+    have e : literalTests .EQ .OR lhs (v :: w :: vs) =
+        .paren (chain .EQ .OR lhs (.binary .EQ lhs (.string v)) (w :: vs)) := rfl
+    rw [e, eval_paren, eval_chain_or matchStr atom lhs (w :: vs) _ _ (eval_eq_lit matchStr atom lhs v)]
+    simp [rewriteLits]
+
+/-- The AND chain is true iff the value differs from all the substituted literals. -/
+theorem eval_tests_and (lhs : Expr) (vals : List Str) :
+    eval matchStr atom (literalTests .NEQ .AND lhs vals) =
+      .bool ((rewriteLits vals).all (strCmpB true (eval matchStr atom lhs))) := by
+  match vals with
+  | [] => simp [literalTests, rewriteLits, eval_neq_lit]
+  | [v] => simp [literalTests, rewriteLits, eval_neq_lit]
+  | v :: w :: vs =>
+    have e : literalTests .NEQ .AND lhs (v :: w :: vs) =
+        .paren (chain .NEQ .AND lhs (.binary .NEQ lhs (.string v)) (w :: vs)) := rfl
+    rw [e, eval_paren, eval_chain_and matchStr atom lhs (w :: vs) _ _ (eval_neq_lit matchStr atom lhs v)]
+    simp [rewriteLits]
+
+/-- `exact` (what `matchExactRegex` answers) is sound for `matchStr` (what `MatchString`
+decides): the literals substituted are, byte for byte, the accepted strings. -/
+def ExactSound (exact : Str → Option (List Str)) : Prop :=
+  ∀ src L, exact src = some L → ∀ x : GoStr, matchStr src x = true ↔ x ∈ (rewriteLits L).map ofStr
+
+theorem any_strCmp_str (x : GoStr) (lits : List Str) :
+    lits.any (strCmpB false (.str x)) = true ↔ x ∈ lits.map ofStr := by
+  simp only [List.any_eq_true, strCmpB, Bool.false_eq_true, if_false, decide_eq_true_eq, List.mem_map]
+  constructor
+  · rintro ⟨l, hl, rfl⟩; exact ⟨l, hl, rfl⟩
+  · rintro ⟨l, hl, rfl⟩; exact ⟨l, hl, rfl⟩
+
+theorem all_strCmp_str (x : GoStr) (lits : List Str) :
+    lits.all (strCmpB true (.str x)) = !(lits.any (strCmpB false (.str x))) := by
+  induction lits with
+  | nil => rfl
+  | cons l ls ih => simp only [List.all_cons, List.any_cons, ih, strCmpB, if_true, Bool.false_eq_true, if_false,
+      Bool.not_or]; simp
+
+theorem rewriteNode_regex (exact : Str → Option (List Str)) (op : Token) (lhs : Expr) (src : Str) :
+    rewriteNode exact (.binary op lhs (.regex src)) =
+      if op = .EQREGEX then
+        match exact src with
+        | none => .binary op lhs (.regex src)
+        | some vals => literalTests .EQ .OR lhs vals
+      else if op = .NEQREGEX then
+        match exact src with
+        | none => .binary op lhs (.regex src)
+        | some vals => literalTests .NEQ .AND lhs vals
+      else .binary op lhs (.regex src) := rfl
+
+theorem rewriteLits_ne_nil (vals : List Str) : rewriteLits vals ≠ [] := by
+  cases vals <;> simp [rewriteLits]
+
+/-- One regex test and what replaces it evaluate to `≈` values, whatever the left operand is. -/
+theorem rewriteNode_rel {exact : Str → Option (List Str)} (hs : ExactSound matchStr exact)
+    (op : Token) (lhs : Expr) (src : Str) :
+    Rel (eval matchStr atom (.binary op lhs (.regex src)))
+      (eval matchStr atom (rewriteNode exact (.binary op lhs (.regex src)))) := by
+  rw [rewriteNode_regex]
+  by_cases h1 : op = .EQREGEX
+  · subst h1
+    simp only [if_true]
+    cases he : exact src with
+    | none => exact Rel.refl _
+    | some vals =>
+      simp only
+      rw [eval_tests_or, eval_eqregex]
+      cases hv : eval matchStr atom lhs with
+      | str x =>
+        left
+        simp only [evalRegexCmp, Bool.false_eq_true, if_false, Val.bool.injEq]
+        rw [Bool.eq_iff_iff, any_strCmp_str]
+        exact hs src vals he x
+      | nil => right; exact ⟨rfl, by simp [strCmpB]⟩
+      | bool b => right; exact ⟨rfl, by simp [strCmpB]⟩
+      | other => right; exact ⟨rfl, by simp [strCmpB]⟩
+  · rw [if_neg h1]
+    by_cases h2 : op = .NEQREGEX
+    · subst h2
+      simp only [if_true]
+      cases he : exact src with
+      | none => exact Rel.refl _
       | some vals =>
-        rw [hr] at h
-        simp only at h
-        cases hc : concatStep names vals with
-        | none => rw [hc] at h; simp at h
-        | some names' =>
-          rw [hc] at h
-          simp only at h
-          have sr := regex_spec r vals hr
-          have he' : EncStrs names' := by
-            intro l hl c hcm
-            obtain ⟨n, hn', v, hv, rfl⟩ := (concatStep_mem hc l).mp hl
-            rcases List.mem_append.mp hcm with hcm | hcm
-            · exact he n hn' c hcm
-            · exact sr.enc v hv c hcm
-          have sl := loop_spec rest names' L h (concatStep_len hc hn sr.len) he'
-          refine ⟨?_, sl.2.1, sl.2.2⟩
-          intro pre s post
-          rw [← sl.1 pre s post]
-          constructor
-          · rintro ⟨a, b, rfl, ha, hm⟩
-            obtain ⟨v, b', rfl, h1, h2⟩ := matchConcatB_cons_iff.mp hm
-            refine ⟨a ++ v, b', by simp, (concatStep_mem hc _).mpr ⟨a, ha, v, (sr.lang _ _ _).mp h1, rfl⟩, ?_⟩
-            rw [← List.append_assoc]; exact h2
-          · rintro ⟨x, b', rfl, hx, hm⟩
-            obtain ⟨a, ha, v, hv, rfl⟩ := (concatStep_mem hc x).mp hx
-            refine ⟨a, v ++ b', by simp, ha, matchConcatB_cons_iff.mpr ⟨v, b', rfl, (sr.lang _ _ _).mpr hv, ?_⟩⟩
-            rw [List.append_assoc]; exact hm
-  theorem alt_spec : ∀ (sub : List Regex) (L : List Str), matchAlt sub = some L → Lang (matchAltB sub) L ∧ EncStrs L
-    | [], L, h => by
-      rw [matchAlt] at h
-      simp only [Option.some.injEq] at h; subst h
-      exact ⟨fun pre s post => by simp [matchAltB_nil], fun l hl => absurd hl List.not_mem_nil⟩
-    | r :: rest, L, h => by
-      rw [matchAlt] at h
-      cases hr : matchRegex r with
-      | none => rw [hr] at h; simp at h
-      | some vals =>
-        rw [hr] at h
-        cases ha : matchAlt rest with
-        | none => rw [ha] at h; simp at h
-        | some more =>
-          rw [ha] at h
-          simp only [Option.map_some, Option.some.injEq] at h; subst h
-          have sr := regex_spec r vals hr
-          have sa := alt_spec rest more ha
-          refine ⟨?_, ?_⟩
-          · intro pre s post
-            rw [matchAltB_cons, Bool.or_eq_true, sr.lang, sa.1, List.mem_append]
-          · intro l hl
-            rcases List.mem_append.mp hl with hl | hl
-            · exact sr.enc l hl
-            · exact sa.2 l hl
+        simp only
+        rw [eval_tests_and, eval_neqregex]
+        cases hv : eval matchStr atom lhs with
+        | str x =>
+          left
+          simp only [evalRegexCmp, if_true, Val.bool.injEq]
+          rw [all_strCmp_str]
+          congr 1
+          rw [Bool.eq_iff_iff, any_strCmp_str]
+          exact hs src vals he x
+        | nil => right; refine ⟨rfl, ?_⟩; obtain ⟨l, ls, e⟩ := List.exists_cons_of_ne_nil (rewriteLits_ne_nil vals); rw [e]; simp [strCmpB]
+        | bool b => right; refine ⟨rfl, ?_⟩; obtain ⟨l, ls, e⟩ := List.exists_cons_of_ne_nil (rewriteLits_ne_nil vals); rw [e]; simp [strCmpB]
+        | other => right; refine ⟨rfl, ?_⟩; obtain ⟨l, ls, e⟩ := List.exists_cons_of_ne_nil (rewriteLits_ne_nil vals); rw [e]; simp [strCmpB]
+    · rw [if_neg h2]; exact Rel.refl _
+
 end
 
 end InfluxQL.Rx
